@@ -79,6 +79,8 @@ inductive HostFn
   | arg (i : Nat)
   | sumInts
   | void
+  /-- returns an array of its arguments (the Go side keeps the very slice it was handed) -/
+  | listArgs
   | nilRet
   | panic
   deriving Inhabited
@@ -140,6 +142,7 @@ def callImpl (name : Str) (f : FnImpl) (args : List Value) : Builtins.BRes :=
     | .sumInts =>
         { out := out, res := .val (.int (args.foldl (fun acc a => match a with | .int i => acc + i | _ => acc) 0)) }
     | .void => { out := out, res := .val .void }
+    | .listArgs => { out := out, res := .val (.array args) }
     | .nilRet => { out := out, res := .val .nil }
     | .panic => { out := out, res := .panic }
 
